@@ -369,6 +369,9 @@ class Builder:
             doy = rng.randint(1, year_len(year))
             y, m, d = civil_from_doy(year, doy)
             ms = rng.choice([0, 86399999, rng.randint(0, 86399999)])
+            if rng.random() < 0.3:
+                # a whole second / tenth (fraction digits all or partly zero) at a non-zero second: trailing zeros are digits too
+                ms = rng.randint(1, 86399) * 1000 + rng.choice([0, 0, 100, 500, 10])
             hh, rem = divmod(ms, 3600000)
             mm, rem = divmod(rem, 60000)
             ss, msec = divmod(rem, 1000)
